@@ -374,6 +374,13 @@ static int run_replay(Test* t) {
   Result* res = static_cast<Result*>(mmap(nullptr, sizeof(Result), PROT_READ | PROT_WRITE, MAP_SHARED | MAP_ANONYMOUS, -1, 0));
   uint64_t h[2];
   int v[2];
+  if (getenv("XMC_BENCH")) {
+    int n = atoi(getenv("XMC_BENCH"));
+    double t0 = now();
+    for (int k = 0; k < n; k++) execute(t, it, res);
+    printf("bench: %.1f us per execution (steps=%lu)\n", (now() - t0) / n * 1e6, (unsigned long)res->steps);
+    return 0;
+  }
   for (int k = 0; k < 2; k++) {
     int save = g_cfg.trace;
     if (k == 1) g_cfg.trace = 0;
